@@ -59,7 +59,11 @@ func (wl *WhopLoc) Continue(s *Scope, args List, depth int) Object {
 		ws := s.NewScope()
 		ws.Let("~whopper-location~", &WhopLoc{Method: wl.Method, Current: i, Args: args})
 		if lam, ok := wrap.(*Lambda); ok {
-			lam.Closure = ws
+			// The wrapper is shared by every caller of the method, a copy
+			// carries the closure of this call.
+			dup := *lam
+			dup.Closure = ws
+			wrap = &dup
 		}
 		return wrap.Call(ws, args, depth+1)
 	}
